@@ -143,7 +143,9 @@ ALLOWED_AXIOMS = set()   # every property theorem must be "Closed under the glob
 # auxiliary theorem files a property's check also re-checks (tie of the model to things outside it)
 AUX_PROPS = {
     "C01": ["Heapq"],                    # CPython's heapq refines the abstract queue
-    "C02": ["Translated"], "C07": ["Translated"], "C12": ["Translated"], "C14": ["Translated"],   # tools/translate.py
+    "C02": ["Translated"], "C07": ["Translated", "Adv"], "C12": ["Translated"], "C14": ["Translated"],   # tools/translate.py ; stock dialogs
+    "C17": ["C17sep"],                   # the separator clause over whole sessions (screen-layer model)
+    "C09": ["C09s"],                     # the screen-level clauses of C09
 }
 
 
